@@ -127,3 +127,17 @@ Theorem filter_exact_applies : forall r col op value,
   no_fault r col op value.
 Proof. exact no_fault_of_wide_stats. Qed.
 Print Assumptions filter_exact_applies.
+
+(** Link of the float order used above to IEEE-754 as formalised by Flocq: for ALL binary32 (binary64) bit patterns,
+    Flocq's comparison of the decoded floats equals the comparison of the sign-magnitude keys and is undefined exactly on
+    the patterns [is_nan32] ([is_nan64]) classifies as NaN.  These two statements - and only these - depend on the axioms
+    of Coq's real-number library through Flocq's definitions (listed by Print Assumptions below). *)
+Theorem float_key_is_ieee32 : forall x y : N, (x < 4294967296)%N -> (y < 4294967296)%N ->
+  flocq_cmp32 x y = key_cmp is_nan32 fkey32 x y.
+Proof. exact FloatLink.float_key_is_ieee32. Qed.
+Print Assumptions float_key_is_ieee32.
+
+Theorem float_key_is_ieee64 : forall x y : N, (x < 18446744073709551616)%N -> (y < 18446744073709551616)%N ->
+  flocq_cmp64 x y = key_cmp is_nan64 fkey64 x y.
+Proof. exact FloatLink.float_key_is_ieee64. Qed.
+Print Assumptions float_key_is_ieee64.
